@@ -92,12 +92,31 @@ def replay_density(data):
             want = a.rho(pts) / (a.rho(pts) + b.rho(pts) + bg)
             if not np.allclose(w, want, rtol=1e-5) or w.min() < 0 or w.max() > 1:
                 bad.append("stockholder weight is not rho_a/(rho_a+rho_b+background) in [0,1]")
-            if bg == 0.0 and not np.allclose(w + StockholderWeight(b, a).weights(pts), 1.0, atol=1e-5):
+            if bg == 0.0 and not np.allclose(w + StockholderWeight(b, a).weights(pts), 1.0, rtol=0, atol=1e-5):
                 bad.append("complementary weights do not sum to one")
             na = max(1, len(Z) // 2)
             w2 = StockholderWeight.from_arrays(Z[:na], pos[:na], Z[na:], pos[na:], background=bg).weights(pts)
             if not np.allclose(w2, want, rtol=1e-5):
                 bad.append("StockholderWeight.from_arrays(..., background=%g) is not rho_a/(rho_a+rho_b+background)" % bg)
+        if len(Z) > 1:
+            import os
+            import tempfile
+            from chmpy.core.element import Element
+            tmpd = tempfile.mkdtemp(prefix="c05r_", dir="/var/tmp")
+            try:
+                names = []
+                for tag, zz, pp in (("a", Z[:na], pos[:na]), ("b", Z[na:], pos[na:])):
+                    fn = os.path.join(tmpd, tag + ".xyz")
+                    open(fn, "w").write("%d\n%s\n" % (len(zz), tag) + "\n".join("%s %.10f %.10f %.10f" % (Element[int(z)].symbol, *p_) for z, p_ in zip(zz, pp)) + "\n")
+                    names.append(fn)
+                w3 = StockholderWeight.from_xyz_files(names[0], names[1]).weights(pts)
+                want3 = a.rho(pts) / (a.rho(pts) + b.rho(pts))
+                if not np.allclose(w3, want3, rtol=1e-4, atol=1e-6):
+                    bad.append("StockholderWeight.from_xyz_files(f1, f2) is not rho(f1)/(rho(f1)+rho(f2)) (max deviation %.3g)" % np.abs(w3 - want3).max())
+            finally:
+                for fn in os.listdir(tmpd):
+                    os.remove(os.path.join(tmpd, fn))
+                os.rmdir(tmpd)
     if data.get("_single_point"):
         # single-point kernels (used by the radial root finder) exist as callables only in the translated source
         for k in range(min(8, len(pts))):
@@ -145,7 +164,7 @@ def replay_row(data):
             for i, z in enumerate(zs):
                 if not np.array_equal(np.asarray(d.rho_data[i]), cd._RHO[z - 1]):
                     return True, "atoms %s: atom %d (Z=%d) is bound to a table row that is not row %d" % (zs.tolist(), i, z, z - 1)
-            if not np.allclose(np.asarray(d.positions, float), pos, atol=1e-6):
+            if not np.allclose(np.asarray(d.positions, float), pos, rtol=0, atol=1e-6):
                 return True, "atoms %s: positions reordered" % zs.tolist()
         return False, "rows follow the atoms for every list tried"
     z = int(data["Z"])
@@ -427,7 +446,7 @@ def part_wrappers(ctx):
 
     def same(x, y):
         x, y = np.asarray(x, dtype=float), np.asarray(y, dtype=float)
-        return x.shape == y.shape and bool(np.allclose(x, y, atol=1e-6))
+        return x.shape == y.shape and bool(np.allclose(x, y, rtol=0, atol=1e-6))
     ex = Explorer()
     results = {}
 
@@ -445,6 +464,27 @@ def part_wrappers(ctx):
     paths = ex.run(go)
     ctx.add_paths(ex)
     bad = None
+    # from_xyz_files(f1, f2): interior density from the first file, exterior from the second (file reading stubbed by name)
+    import tempfile
+    import os
+    tmpd = tempfile.mkdtemp(prefix="c05_", dir="/var/tmp")
+    fa, fb = os.path.join(tmpd, "a.xyz"), os.path.join(tmpd, "b.xyz")
+    open(fa, "w").write("1\nA\nO 0.25 -0.5 1.0\n")
+    open(fb, "w").write("2\nB\nH 1.5 0.75 -0.25\nH 2.0 -1.25 0.5\n")
+    try:
+        del log[:]
+        swx = md.StockholderWeight.from_xyz_files(fa, fb)
+        a, b, args, kw = log[0]
+        okx = len(log) == 1 and same(a.positions, PA) and same(b.positions, PB)
+    except Exception as e:
+        okx = False
+    finally:
+        for f_ in (fa, fb):
+            os.remove(f_)
+        os.rmdir(tmpd)
+    ctx.record("wrappers (from_xyz_files): interior density from the first file, exterior from the second", "holds" if okx else "counterexample", nontrivial=True)
+    if not okx:
+        bad = "StockholderWeight.from_xyz_files does not build the interior density from the first file and the exterior from the second"
     for p in paths:
         if p.exc is not None:
             bad = "wrapper raises %s: %s" % (type(p.exc).__name__, p.exc)
